@@ -40,7 +40,7 @@ EDIT_WEIGHTS = {"func": 0, "graph": 0.3, "c_rnv": 0.5, "io_iadd": 0, "attr_graph
 def plan(tier: str) -> dict:
     quick = tier == "quick"
     return {
-        "cases": 16000 if quick else 450000,
+        "cases": 16000 if quick else 1500000,
         "shards": 16,
         "budget_s": 35 if quick else 540,
         "floors": {"roundtrips_judged": 3000 if quick else 150000, "snapshots_compared": 3000 if quick else 150000,
